@@ -3,13 +3,17 @@ from props import txn_engine as E
 
 PROP = "C07"
 LEVEL = "exploration"
-RUNS = {"quick": 12000, "thorough": 400000}
-SHRINK_LISTS = ("faults", "env", "producers", "txns", "tasks")
-SHRINK_MIN = {"producers": 1, "txns": 1, "tasks": 1}
+RUNS = {"quick": 8000, "thorough": 400000}
+SHRINK_LISTS = ("faults", "env", "producers", "txns", "tasks", "calls")
+SHRINK_MIN = {"producers": 1, "txns": 1, "tasks": 1, "calls": 1}
 RUN_TIMEOUT = 300
 
 
 def gen_plan(seed, index, tier="quick"):
+    if index % 4 == 3:
+        # call programs x single (abortable / fatal / retriable) faults, judged by the
+        # atomicity reader and the protocol-order monitor
+        return E.gen_plan_c07_calls(seed, index, tier)
     return E.gen_plan_c07(seed, index, tier)
 
 
